@@ -253,7 +253,20 @@ def winding_sides(rep, prog, split):
 
 
 def selective(rep, prog):
-    rm = prog.fn("local_mesh_refiner::refine_mesh")
+    rm0 = prog.fn("local_mesh_refiner::refine_mesh")
+    hosts = prog.with_new_helpers(rm0)
+    found = {"local_mesh_refiner::split_edge": 0, "local_mesh_refiner::merge_edge": 0}
+    for rm in hosts:
+        _selective_in(rep, prog, rm, found)
+    for callee, cnt in found.items():
+        if not cnt:
+            raise AnalysisBroken("refine_mesh no longer calls %s" % callee)
+    rm = rm0
+    fi = prog.index(rm)
+    _selective_rest(rep, prog, rm, fi)
+
+
+def _selective_in(rep, prog, rm, found):
     fi = prog.index(rm)
     # l2 local = squared_norm of (n_a - n_b) with n_a/n_b = get_node(e.n1()/n2()) of the edge variable passed to split/merge
     def is_len2_of(expr, edge_did):
@@ -279,8 +292,7 @@ def selective(rep, prog):
     for callee, op, field, extra in (("local_mesh_refiner::split_edge", ">", "local_mesh_refiner::l_max_squared_", None),
                                      ("local_mesh_refiner::merge_edge", "<", "local_mesh_refiner::l_min_squared_", "local_mesh_refiner::can_be_merged")):
         sites = [n for n in walk(rm["body"]) if n.get("k") == "CXXMemberCallExpr" and n.get("callee") == callee]
-        if not sites:
-            raise AnalysisBroken("refine_mesh no longer calls %s" % callee)
+        found[callee] += len(sites)
         for n in sites:
             ed = strip(call_args(n)[0])
             ok_len = ok_extra = extra is None
@@ -302,6 +314,9 @@ def selective(rep, prog):
             else:
                 rep.violation("C11.selective", prog, rm, n, "%s not guarded by the length test" % callee.split("::")[1],
                               "%s is not dominated by 'squared length of that edge %s %s'%s: a mesh that already satisfies the length band would be modified" % (short(n, 60), op, field.split("::")[1], " and can_be_merged" if extra else ""))
+
+
+def _selective_rest(rep, prog, rm, fi):
     # swap
     re_ = prog.fn("local_mesh_refiner::remove_elongated_triangles")
     ri = prog.index(re_)
